@@ -36,10 +36,14 @@ TRUSTED_BASE = [
     "the stored values (C01)",
 ]
 ASSUMPTIONS = [
-    "no append to a dataset created by rtdc_copy (it is not resizable: "
-    "h5ds_copy creates it without maxshape, the writer raises RuntimeError)",
-    "values written are representable in the stored dtype (the integer-"
-    "first case is the C01 finding C01-dtype-frozen)",
+    "no append to a dataset re-created by rtdc_copy from a source that is not "
+    "Zstd-5 compressed (h5ds_copy creates it without maxshape, the writer "
+    "raises RuntimeError); Zstd-5 sources are copied as they are and stay "
+    "appendable (generated)",
+    "values the stored dtype cannot hold are generated (fractions/NaN/inf "
+    "into uint32, integer-first float features); not generated: NaN/inf/"
+    "negative values into uint64 and NaN/inf into int64 datasets (platform "
+    "dependent conversion, float64 sums at 2^63)",
     "hierarchy children keep at least one event (numpy.nanmin of nothing "
     "raises, so does the child)",
     "files are modified only through the writer, rtdc_copy or by deleting "
@@ -55,6 +59,7 @@ MODES = ["append", "replace", "reset"]
 FINDING_MEAN = "C20-mean-nan-weight"
 FINDING_BASIN = "C20-mapped-basin-summaries"
 FINDING_REPLACE = "C20-two-writers-replace-same-size"
+FINDING_NDARRAY = "C20-ndarray-summaries-propagate-nan"
 RTOL = 1e-9
 
 
@@ -484,6 +489,139 @@ def gen_raw_case(rng):
                 qorder=rng.sample([0, 1, 2], 3))
 
 
+def gen_ndarray_case(rng):
+    """a scalar feature that is a plain numpy array: ancillary (area_ratio
+    computed from area_cvx/area_msd), temporary, or of a dict dataset"""
+    n = rng.choice([1, 2, 3, 5, 8])
+    vals = gen_batch(rng, n, "deform", rng.choice(["clean", "some", "many",
+                                                   "inf"]))
+    # area_ratio = area_cvx / 1: keep it positive and finite or NaN
+    vals = [[t, abs(k) + 8] if t == 0 else [1, 0] for t, k in vals]
+    return dict(nd=rng.choice(["ancillary", "temporary", "dict"]), vals=vals)
+
+
+def run_ndarray_impl(case, scratch):
+    """returns ([min, max] reported, failures)"""
+    np = _np()
+    import warnings
+    import dclab
+    from dclab.rtdc_dataset.writer import RTDCWriter
+    from . import gen
+    arr = dec_vals(np, case["vals"], "deform")
+    path = os.path.join(scratch, "c20-nd-%d-%d.rtdc" % (os.getpid(),
+                                                       id(case) % 100000))
+    fails = []
+    try:
+        with warnings.catch_warnings():
+            warnings.simplefilter("ignore")
+            if case["nd"] == "dict":
+                ds = dclab.new_dataset({"deform": arr.copy(),
+                                        "area_um": np.ones(len(arr))})
+                fobj, feat = ds["deform"], "deform"
+            else:
+                with RTDCWriter(path, mode="reset") as hw:
+                    hw.store_metadata(gen.base_meta())
+                    hw.store_feature("area_msd", np.ones(len(arr)))
+                    hw.store_feature("area_cvx", arr)
+                ds = dclab.new_dataset(path)
+                if case["nd"] == "ancillary":
+                    fobj, feat = ds["area_ratio"], "area_ratio"
+                else:
+                    try:
+                        dclab.register_temporary_feature("c20tmp",
+                                                         is_scalar=True)
+                    except Exception:
+                        pass
+                    dclab.set_temporary_feature(ds, "c20tmp", arr.copy())
+                    fobj, feat = ds["c20tmp"], "c20tmp"
+            with np.errstate(all="ignore"):
+                rep = [float(fobj.min()), float(fobj.max()),
+                       float(fobj.mean())]
+                ref = [float(np.nanmin(arr)), float(np.nanmax(arr)),
+                       float(np.nanmean(arr))] if not np.all(
+                           np.isnan(arr)) else [np.nan] * 3
+            for name, a, b in zip(("min", "max", "mean"), rep, ref):
+                ok = close_to(np, a, b) if name == "mean" else (
+                    a == b or (np.isnan(a) and np.isnan(b)))
+                if not ok:
+                    fails.append(("ndarray-" + name, "%s feature %s (%s): "
+                                  "reported %s %r, numpy.nan%s of the data "
+                                  "is %r" % (case["nd"], feat,
+                                             type(fobj).__name__, name, a,
+                                             name, b)))
+            # the hierarchy child of the same dataset answers NaN-ignoring
+            ch = dclab.new_dataset(ds)
+            fails += [("ndarray-child-" + k, d) for k, d in check_summaries(
+                np, ch[feat], "child over a %s feature" % case["nd"])]
+            ds.close()
+    finally:
+        if os.path.exists(path):
+            os.unlink(path)
+    return rep[:2], fails
+
+
+def _work_ndarray(args):
+    case, scratch = args
+    try:
+        return run_ndarray_impl(case, scratch)
+    except BaseException as e:
+        return None, [("harness", "run_ndarray_impl crashed: %r" % (e,))]
+
+
+def gen_f32_case(rng, thorough=False):
+    """a float32-first dataset that later receives float64 values a float32
+    cannot hold, over many appends (oracle only: rounding is not modelled)"""
+    nb = rng.choice([2, 5, 12, 30] + ([120] if thorough else []))
+    batches = []
+    for b in range(nb):
+        n = rng.choice([1, 2, 3, 7])
+        vals = [rng.choice([rng.random() * 100, 0.1 * rng.randint(1, 999),
+                            1e-3 * rng.random(), float("nan")])
+                for _ in range(n)]
+        batches.append(vals)
+    return dict(f32=True, batches=batches, reopen=rng.random() < 0.3)
+
+
+def run_f32_impl(case, scratch):
+    np = _np()
+    import warnings
+    import dclab
+    from dclab.rtdc_dataset.writer import RTDCWriter
+    from . import gen
+    path = os.path.join(scratch, "c20-f32-%d-%d.rtdc" % (os.getpid(),
+                                                        id(case) % 100000))
+    try:
+        with warnings.catch_warnings():
+            warnings.simplefilter("ignore")
+            hw = RTDCWriter(path, mode="reset")
+            hw.store_metadata(gen.base_meta())
+            for i, vals in enumerate(case["batches"]):
+                arr = np.array(vals, dtype=np.float32 if i == 0
+                               else np.float64)
+                hw.store_feature("deform", arr)
+                if case.get("reopen") and i % 3 == 2:
+                    hw.__exit__(None, None, None)
+                    hw = RTDCWriter(path, mode="append")
+            hw.__exit__(None, None, None)
+            with dclab.new_dataset(path) as ds:
+                if ds["deform"].dtype != np.float32:
+                    return [("harness", "dataset is not float32")]
+                return check_summaries(np, ds["deform"],
+                                       "float32 dataset, %d appends" % len(
+                                           case["batches"]))
+    finally:
+        if os.path.exists(path):
+            os.unlink(path)
+
+
+def _work_f32(args):
+    case, scratch = args
+    try:
+        return run_f32_impl(case, scratch)
+    except BaseException as e:
+        return [("harness", "run_f32_impl crashed: %r" % (e,))]
+
+
 def gen_case(rng, thorough=False):
     r = rng.random()
     if r < 0.15:
@@ -764,7 +902,12 @@ def run_impl(case, scratch, keep=False):
                 ch2 = dclab.new_dataset(ch)
                 fails += [("grandchild-" + k, d) for k, d in check_summaries(
                     np, ch2[feat], "child of a hierarchy child")]
-                obs = dict(n=n, rep=rep, child=crep, attrs=attrs)
+                stored = np.asarray(fobj[:])
+                if stored.dtype.kind in "iu":
+                    svals = [[0, 8 * int(v)] for v in stored]
+                else:
+                    svals = [enc_f(np, v) for v in stored]
+                obs = dict(n=n, rep=rep, child=crep, attrs=attrs, vals=svals)
             # the same feature seen through a mapped basin
             bm = [i for i in range(n) if i % 3 != 1]
             ref = os.path.join(scratch, "c20-%s-ref.rtdc" % tag)
@@ -778,6 +921,39 @@ def run_impl(case, scratch, keep=False):
             with dclab.new_dataset(ref) as dsb:
                 fb = dsb[feat]
                 obs["basin_type"] = type(fb).__name__
+                # integer, boolean and slice indexing before the data are read
+                sel_b = np.asarray(stored, dtype=np.float64)[bm]
+                msk = (np.arange(len(bm)) % 2 == 0)
+                try:
+                    got = [np.asarray(dsb[feat][len(bm) - 1], dtype=float),
+                           np.asarray(dsb[feat][msk], dtype=float),
+                           np.asarray(dsb[feat][1:], dtype=float)]
+                    wantb = [sel_b[len(bm) - 1], sel_b[msk], sel_b[1:]]
+                    for g_, w_ in zip(got, wantb):
+                        if not np.array_equal(g_, w_, equal_nan=True):
+                            fails.append(("basin-index", "indexing a mapped "
+                                          "basin feature before reading it "
+                                          "differs from basin[map][index]"))
+                            break
+                except BaseException as e:
+                    fails.append(("basin-index", "indexing a mapped basin "
+                                  "feature raised %r" % (e,)))
+                # a hierarchy child of the basin-backed dataset
+                try:
+                    dsb.filter.manual[:] = msk
+                    dsb.apply_filter()
+                    chb = dclab.new_dataset(dsb)
+                    if not np.array_equal(np.asarray(chb[feat][:], dtype=float),
+                                          sel_b[msk], equal_nan=True):
+                        fails.append(("basin-child-data", "child of a basin-"
+                                      "backed dataset: data differ from "
+                                      "basin[map][filter]"))
+                    fails += [("basin-child-" + k, d) for k, d in
+                              check_summaries(np, chb[feat], "child of a "
+                                              "basin-backed dataset")]
+                except BaseException as e:
+                    fails.append(("basin-child", "child of a basin-backed "
+                                  "dataset raised %r" % (e,)))
                 try:
                     brep, bref = summaries(np, fb)
                     obs["basin"] = brep
@@ -807,13 +983,19 @@ def run_impl(case, scratch, keep=False):
 # --------------------------------------------------------------------------
 def compare(np, model, obs):
     """model: flat list of Model/C20.v:run_flat; returns None or text"""
+    model = model[1:]        # model[0] is the guard hist_ok
     if obs is None:
         return None if model == [-1] else "model has a dataset, file has none"
     if model == [-1]:
         return "file has the dataset, model has none"
     if model[0] != obs["n"]:
         return "length %s vs %s" % (model[0], obs["n"])
-    pos = 1
+    n = obs["n"]
+    want = [x for tk in obs["vals"] for x in tk]
+    if model[1:1 + 2 * n] != want:
+        return "stored values: model %s, file %s" % (model[1:1 + 2 * n][:12],
+                                                     want[:12])
+    pos = 1 + 2 * n
     parts = [("file", obs["rep"]), ("attrs", obs.get("attrs")),
              ("child", obs["child"])]
     if obs.get("basin") is not None:
@@ -868,7 +1050,10 @@ def render(case):
     feat = case["feat"]
     out = []
     for o in case["ops"]:
-        t, a, data, inst, _ = op_parts(o)
+        t, a, data, inst, keepalive = op_parts(o)
+        if t == 0 and not (keepalive and a != 2):
+            # the harness closes every live writer before this open
+            out.append("(5, 0, 0, [])")
         if t == 0:
             x, y = inst, a
         elif t == 1:
@@ -910,9 +1095,12 @@ def replace_guard_violated(case):
     return False
 
 
-def classify(case, key):
-    if key.endswith("mean") and "ops" in case and replace_guard_violated(case):
-        # the listed finding: per-writer count validated by the size only
+def classify(case, key, guard_ok=None):
+    if guard_ok is None and "ops" in case:
+        guard_ok = not replace_guard_violated(case)
+    if key in ("mean", "route2-mean") and "ops" in case and not guard_ok:
+        # the listed finding: per-writer count validated by the size only;
+        # only the stored mean attribute (file routes) can be affected
         return FINDING_REPLACE
     if key in ("mean",) and any(t == 1 and any(x == 1 for x, _ in data)
                                 for t, _, data in (o[:3] for o in case["ops"])):
@@ -920,6 +1108,10 @@ def classify(case, key):
         return FINDING_MEAN
     if key == "basin-missing":
         return FINDING_BASIN
+    if key in ("ndarray-min", "ndarray-max", "ndarray-mean") and \
+            "nd" in case and any(t == 1 for t, _ in case["vals"]):
+        # plain numpy arrays answer with numpy's NaN-propagating methods
+        return FINDING_NDARRAY
     return None
 
 
@@ -982,15 +1174,23 @@ def run(run):
                       else "op:open:" + MODES[a])
             if t == 1 and data and all(x == 1 for x, _ in data):
                 run.count("batch:all-nan")
-        for key, desc in fails:
-            run.oracle_failure(c, desc, classify(c, key))
     model = common.coq_map(run.scratch, "c20", HEADER, "run_flat",
                            [render(c) for c in cases], shard=40)
     for c, m, (obs, fails, info) in zip(cases, model, results):
         run.corr_checked += 1
         d = compare(np, m, obs)
+        # the guard of the partial theorem, evaluated in Coq, against the
+        # Python mirror used by replay/search
+        guard_ok = bool(m[0])
+        if guard_ok == replace_guard_violated(c):
+            d = d or "hist_ok: Coq %s, Python mirror says violated=%s" % (
+                guard_ok, replace_guard_violated(c))
+        if not guard_ok:
+            run.count("guard hist_ok false (replace writer met a counting one)")
         if d:
             run.mismatch(c, d, obs)
+        for key, desc in fails:
+            run.oracle_failure(c, desc, classify(c, key, guard_ok))
     # hierarchy children across refreshes
     ccases = [gen_child_case(run.rng) for _ in range(
         600 if run.thorough else 60)]
@@ -1037,6 +1237,39 @@ def run(run):
         d = compare_basin(np, m, out)
         if d:
             run.mismatch(c, d, [list(o) for o in out])
+    # plain-ndarray scalar features (ancillary, temporary, dict): finding
+    ncases2 = [c for c in load_corpus_all() if "nd" in c]
+    while len(ncases2) < (300 if run.thorough else 30):
+        ncases2.append(gen_ndarray_case(run.rng))
+    with multiprocessing.get_context("fork").Pool(min(8, common.NCPU)) as pool:
+        nres = pool.map(_work_ndarray, [(c, run.scratch) for c in ncases2],
+                        chunksize=8)
+    nmodel = common.coq_map(run.scratch, "c20n", HEADER, "ndarray_flat",
+                            [common.clist(["(%d, %s)" % (x, common.zlit(k))
+                                           for x, k in c["vals"]])
+                             for c in ncases2], shard=100)
+    for c, m, (rep, fails) in zip(ncases2, nmodel, nres):
+        run.record_case(c, any(t == 1 for t, _ in c["vals"]), sample=False)
+        run.count("ndarray-feature:" + c["nd"])
+        run.corr_checked += 1
+        if rep is None or m != enc_f(np, rep[0]) + enc_f(np, rep[1]):
+            run.mismatch(c, "ndarray min/max: model %s" % m, rep)
+        for key, desc in fails:
+            run.oracle_failure(c, desc, classify(c, key))
+    # float32 datasets through the writer (oracle only)
+    fcases = [gen_f32_case(run.rng, run.thorough) for _ in range(
+        200 if run.thorough else 20)]
+    with multiprocessing.get_context("fork").Pool(min(8, common.NCPU)) as pool:
+        fres = pool.map(_work_f32, [(c, run.scratch) for c in fcases],
+                        chunksize=4)
+    for c, fails in zip(fcases, fres):
+        run.record_case(dict(f32=True, appends=len(c["batches"])), True,
+                        sample=False)
+        run.count("float32-dataset-through-writer")
+        run.count("float32-appends", len(c["batches"]))
+        for key, desc in fails:
+            run.oracle_failure(dict(f32=True, batches=c["batches"],
+                                    reopen=c.get("reopen")), desc, None)
     production_runs(run)
 
 
@@ -1057,11 +1290,19 @@ def nan_spec(run, n, run_id=None, hour=12):
     from . import gen
     rng = run.rng
     spec = gen.random_dataset_spec(rng, n, kinds=("scalar", "image", "mask"),
-                                   special=True, run_id=run_id, nscalars=4)
-    for name, arr in spec["features"].items():
-        if getattr(arr, "ndim", 0) == 1 and name != "time":
-            if rng.random() < 0.3:
+                                   special=False, run_id=run_id, nscalars=4)
+    # NaN/inf only in features no ancillary feature is computed from (condense
+    # computes ancillary features; some assert on non-finite positions/sizes,
+    # which is not this property's subject)
+    free = ("deform", "aspect", "userdef1", "userdef2", "bright_avg")
+    if not any(f in spec["features"] for f in free):
+        spec["features"]["deform"] = gen.dyadic(rng, n, 0, 80)
+    for name in free:
+        if name in spec["features"]:
+            arr = gen.inject_special(rng, spec["features"][name])
+            if rng.random() < 0.4:
                 arr[: rng.randint(1, n)] = _np().nan
+            spec["features"][name] = arr
     spec["meta"]["experiment"]["time"] = "%02d:10:11" % hour
     return spec
 
@@ -1073,6 +1314,24 @@ def production_runs(run):
         _production_runs(run)
 
 
+def production_complete(run, reps):
+    for kind in ("compress", "repack", "condense", "export", "basin",
+                 "raw-h5py-compress", "raw-h5py-repack", "raw-h5py-condense"):
+        if run.dist.get("production:" + kind, 0) < reps:
+            production_failed(run, "production route %s ran %d of %d times" % (
+                kind, run.dist.get("production:" + kind, 0), reps))
+    if sum(v for k, v in run.dist.items()
+           if k.startswith("production:join-")) < reps:
+        production_failed(run, "join ran fewer than %d times" % reps)
+
+
+def production_failed(run, text):
+    """a production route that raises is a failure of the check, not a note"""
+    run.notes.append(text)
+    run.oracle_failure(dict(kind="production", error=text),
+                       "production run raised: " + text, None)
+
+
 def _production_runs(run):
     np = _np()
     import dclab
@@ -1081,7 +1340,7 @@ def _production_runs(run):
     rng = run.rng
     d = os.path.join(run.scratch, "prod")
     os.makedirs(d, exist_ok=True)
-    reps = 12 if run.thorough else 3
+    reps = 12 if run.thorough else 4
 
     def record(kind, path_or_ds, case):
         try:
@@ -1120,7 +1379,7 @@ def _production_runs(run):
                     cli.condense(path_in=src, path_out=out)
                 record(task, out, dict(case, task=task))
             except BaseException as e:
-                run.notes.append("%s failed: %r" % (task, e))
+                production_failed(run, "%s failed: %r" % (task, e))
         # a file written without the writer (plain h5py: integer and float
         # scalar features, no stored summaries) through the same tasks
         rawp = os.path.join(d, "raw%d.rtdc" % rep)
@@ -1153,7 +1412,7 @@ def _production_runs(run):
                     cli.condense(path_in=rawp, path_out=out)
                 record("raw-h5py-" + task, out, dict(rcase, task=task))
         except BaseException as e:
-            run.notes.append("raw file tasks failed: %r" % (e,))
+            production_failed(run, "raw file tasks failed: %r" % (e,))
         # export with a filter, in several chunks
         try:
             with dclab.new_dataset(src) as ds:
@@ -1165,9 +1424,9 @@ def _production_runs(run):
                                override=True)
             record("export", out, dict(case, task="export"))
         except BaseException as e:
-            run.notes.append("export failed: %r" % (e,))
+            production_failed(run, "export failed: %r" % (e,))
         # join of 2..5 files
-        k = rng.randint(2, 5)
+        k = 2 + rep % 4          # joins of 2, 3, 4 and 5 files
         parts = []
         names = None
         for j in range(k):
@@ -1187,7 +1446,7 @@ def _production_runs(run):
             cli.join(paths_in=parts, path_out=out)
             record("join-%d" % k, out, dict(case, task="join", k=k))
         except BaseException as e:
-            run.notes.append("join failed: %r" % (e,))
+            production_failed(run, "join failed: %r" % (e,))
         # basin-backed feature
         try:
             from dclab.rtdc_dataset.writer import RTDCWriter
@@ -1209,7 +1468,8 @@ def _production_runs(run):
                 run.oracle_failure(dict(case, task="basin"), desc,
                                    FINDING_MEAN if key == "mean" else None)
         except BaseException as e:
-            run.notes.append("basin failed: %r" % (e,))
+            production_failed(run, "basin failed: %r" % (e,))
+    production_complete(run, reps)
 
 
 # --------------------------------------------------------------------------
